@@ -1054,6 +1054,8 @@ registry! {
     ArrArr: [[u16; 2]; 3];
     ArrString: [String; 2];
     ArrVecU8: [Vec<u8>; 2];
+    ArrVecString: [Vec<String>; 2];
+    ArrOptVec: [Option<Vec<u16>>; 3];
     T1: (u32,);
     T2: (u64, u64);
     T3: (u16, u16, u16);
@@ -1073,6 +1075,7 @@ registry! {
     ZeroSD: ZeroS;
     ZeroPD: ZeroP;
     Z32D: Z32;
+    Z64D: Z64;
     EnumZD: EnumZ;
     DeepA: DeepS<Vec<u64>, Vec<String>> { escape = |c| { let r: &'static [u64] = c.a; slice_escape_deref(r).map(|(a, l, _)| (a, l, "field-copy")) } };
     DeepB: DeepS<Vec<ZeroP>, Option<Vec<u16>>>;
@@ -1091,6 +1094,7 @@ registry! {
     ArrDeep: [TupleS<String>; 2];
     BoxDeep: Box<[TupleS<Vec<u32>>]>;
     HolderD: Holder<Z32>;
+    HolderE: Holder<Z64>;
     HolderA: Holder<Vec<u8>>;
     HolderB: Holder<Vec<u64>>;
     HolderC: Holder<String>;
